@@ -246,7 +246,34 @@ def _ctor_table():
     add('Frame.from_concat((Frame(a2),))', lambda a, ia, ca: sf.Frame.from_concat((sf.Frame(a, index=ia, columns=ca),)), 2)
     add('Series.from_concat', lambda a, ia, ca: sf.Series.from_concat((sf.Series(a, index=ia),)))
     add('Bus.from_frames', lambda a, ia, ca: sf.Bus.from_frames((sf.Frame(a, index=ia, columns=ca, name='f'),))['f'], 2)
+    # datetime-typed index classes fed an array that already has (or has not) the class's own unit
+    add('IndexTyped(ia)', lambda a, ia, ca: _typed(ia)(ia))
+    add('IndexTypedGO(ia)->static', lambda a, ia, ca: _typed(ia)(_typed(ia, go=True)(ia)))
+    add('IndexTypedGO(ia)', lambda a, ia, ca: _typed(ia, go=True)(ia))
+    add('Series(a,index=ia,index_constructor=typed)', lambda a, ia, ca: sf.Series(a, index=ia, index_constructor=_typed(ia)))
+    add('Frame(a2,index=ia,index_constructor=typed)', lambda a, ia, ca: sf.Frame(a, index=ia, columns=ca, index_constructor=_typed(ia)), 2)
+    add('Frame(columns=ia,columns_constructor=typed)', lambda a, ia, ca: sf.Frame(np.zeros((2, len(ia))), columns=ia, columns_constructor=_typed(ia)))
+    add('IndexHierarchy.from_labels(index_constructors=typed)', lambda a, ia, ca: sf.IndexHierarchy.from_labels([(0, x) for x in ia], index_constructors=[sf.Index, _typed(ia)]))
+    add('IndexHierarchy.from_product(typed(ia))', lambda a, ia, ca: sf.IndexHierarchy.from_product(('p', 'q'), _typed(ia)(ia)))
+    add('IndexHierarchy.from_index_items(typed(ia))', lambda a, ia, ca: sf.IndexHierarchy.from_index_items([('p', _typed(ia)(ia))]))
+    add('series.relabel(typed(ia))', lambda a, ia, ca: sf.Series(a).relabel(_typed(ia)(ia)))
+    add('series.reindex(ia, index_constructor)', lambda a, ia, ca: sf.Series(a, index=ia, index_constructor=_typed(ia)).reindex(ia))
     return T
+
+
+_TYPED = {'Y': 'IndexYear', 'M': 'IndexYearMonth', 'D': 'IndexDate', 'h': 'IndexHour', 'm': 'IndexMinute', 's': 'IndexSecond',
+          'ms': 'IndexMillisecond', 'us': 'IndexMicrosecond', 'ns': 'IndexNanosecond'}
+
+
+def _typed(ia, go=False):
+    """The datetime-typed index class whose unit is the one requested for this case (set by the generator)."""
+    unit = _typed.unit
+    if ia.dtype.kind != 'M' or unit is None:
+        raise TypeError('not a datetime label array')
+    return getattr(sf, _TYPED[unit] + ('GO' if go else ''))
+
+
+_typed.unit = None
 
 
 def _go_set(a, ia):
@@ -293,11 +320,20 @@ def caller_cases(draw):
     m = draw(st.integers(1, 4)) if ndim == 2 else 1
     vals = draw(st.lists(gen.elements(kind), min_size=n * m, max_size=n * m))
     a = gen.to_array(kind, vals, (n, m) if ndim == 2 else None)
-    lk = draw(st.sampled_from(['int', 'str']))
-    ia = np.array(draw(gen.flat_labels(n, lk)))
+    typed_route = 'yped' in CTORS[ci][0]
+    lk = draw(st.sampled_from(['dt'] if typed_route else ['int', 'str', 'dt']))
+    cls_unit = None
+    if lk == 'dt':
+        # a datetime64 label array; for the typed routes the class unit equals the array unit two times out of three
+        unit = draw(st.sampled_from(sorted(_TYPED)))
+        cls_unit = unit if draw(st.integers(0, 2)) else draw(st.sampled_from(sorted(_TYPED)))
+        offs = draw(st.lists(st.integers(0, 60), min_size=n, max_size=n, unique=True))
+        ia = (np.datetime64('2001-01-01', unit) + np.array(offs).astype('m8[%s]' % unit)).astype('M8[%s]' % unit)
+    else:
+        ia = np.array(draw(gen.flat_labels(n, lk)))
     ca = np.array(draw(gen.flat_labels(m, 'str')))
     order = draw(st.sampled_from(['C', 'F'])) if ndim == 2 else 'C'
-    return {'ctor': ci, 'a': a, 'ia': ia, 'ca': ca, 'order': order, 'view': draw(st.sampled_from(['own', 'own', 'view']))}
+    return {'ctor': ci, 'a': a, 'ia': ia, 'ca': ca, 'order': order, 'view': draw(st.sampled_from(['own', 'own', 'view'])), 'cls_unit': cls_unit}
 
 
 def _scramble(a):
@@ -343,6 +379,7 @@ def check_caller(case):
         # even if the library were to freeze the view it received (a read-only view is "already read-only" and
         # may legitimately be kept, so that case is not generated)
         a, ia, ca = a[...], ia[...], ca[...]
+    _typed.unit = case.get('cls_unit')
     c = lib(fn, a, ia, ca)
     if isinstance(c, Raised):
         raise Discard('constructor rejected input: %s' % name)
@@ -359,7 +396,10 @@ def check_caller(case):
     s1 = lib(obs.snap, c)
     if isinstance(s1, Raised) or s1 != s0:
         raise Failure('caller-write-visible', '%s: writing to the caller-held input arrays changed the container: %s -> %s' % (name, short(s0, 300), short(s1, 300)))
-    return {'nt': any(wrote), 'cls': ['ctor:' + name, 'input-frozen-in-place' if not all(wrote) else 'input-still-writeable']}
+    classes = ['ctor:' + name, 'input-frozen-in-place' if not all(wrote) else 'input-still-writeable']
+    if case.get('cls_unit'):
+        classes.append('typed-index-unit-' + ('exact' if ia.dtype == np.dtype('M8[%s]' % case['cls_unit']) else 'other'))
+    return {'nt': any(wrote), 'cls': classes}
 
 
 # ---------------------------------------------------------------------------------------------
